@@ -53,13 +53,12 @@ impl Printer {
             Ok(_) => {}
             Err(e) => {
                 if print_error_message {
-                    writeln!(
+                    let _ = writeln!(
                         &mut stderr(),
                         "Error writing {:?} for {}",
                         file_info.path().to_string_lossy(),
                         e
-                    )
-                    .unwrap();
+                    );
                     matcher_io.set_exit_code(1);
                 }
             }
